@@ -56,11 +56,16 @@ class Continuous:
         self._nextline = nextline
         self._pubsub_enabled = PubSubItem[bool]()
         self._n_requests = 0  # the requests pending or with the run in progress
+        self._closed = False
 
     async def start(self) -> None:
         await self._pubsub_enabled.publish(False)
 
     async def close(self) -> None:
+        self._closed = True
+        if self._n_requests > 0:
+            # Requests still waiting for their turn will be refused.
+            await self._pubsub_enabled.publish(False)
         await self._pubsub_enabled.aclose()
 
     async def __aenter__(self) -> 'Continuous':
@@ -100,6 +105,8 @@ class Continuous:
     async def disable(self) -> None:
         '''Called when a request is refused or the run of a request has finished.'''
         self._n_requests -= 1
+        if self._closed:
+            return
         await self._pubsub_enabled.publish(self._n_requests > 0)
 
     @property
